@@ -432,8 +432,9 @@ def r01e(ctx):
                 ctx.report("R01e", f, f.node, f"before + after = {tot!r} ≠ L", "insert: the two halves of the split run do not add up to the run")
     # delete: map shift is exactly -1 on every later run
     f = m.functions["delete_item_in_vault"]
-    shifts = [n for n in walk_no_nested(f.node) if isinstance(n, ast.ListComp) and isinstance(n.elt, ast.BinOp)]
-    ok = bool(shifts) and all(isinstance(n.elt.op, ast.Sub) and isinstance(n.elt.right, ast.Constant) and n.elt.right.value == 1 for n in shifts)
+    shifts = [n for n in walk_no_nested(f.node) if isinstance(n, ast.ListComp)]
+    nset = len([n for n in walk_no_nested(f.node) if isinstance(n, ast.Call) and call_name(n) == "setattr"])
+    ok = bool(shifts) and len(shifts) == nset and all(isinstance(n.elt, ast.BinOp) and isinstance(n.elt.op, ast.Sub) and isinstance(n.elt.right, ast.Constant) and n.elt.right.value == 1 for n in shifts)
     ctx.instance("R01e", f"{f.file}:{f.ident}", "later runs shift by exactly one position", ok=ok, nontrivial=True)
     if not ok:
         ctx.report("R01e", f, f.node, "map shift after delete", "positions after the deleted item are not shifted by exactly one")
@@ -459,3 +460,68 @@ def run(ctx):
     r01c(ctx)
     r01d(ctx)
     r01e(ctx)
+
+
+from ..selftest import Seed, unparse_seed  # noqa: E402
+
+_T = "src/odfdo/table.py"
+_R = "src/odfdo/row.py"
+_EC = "src/odfdo/element_cached.py"
+SEEDS = [
+    Seed("insert_cell forgets row.repeated = None", "fault", _T,
+         "        row = self._get_row2(y, clone=True)\n        row.y = y\n        row.repeated = None\n        cell_back = row.insert_cell(x, cell, clone=False)",
+         "        row = self._get_row2(y, clone=True)\n        row.y = y\n        cell_back = row.insert_cell(x, cell, clone=False)", "R01a"),
+    Seed("set_cells forgets the un-repeat", "fault", _T,
+         "            row = self.get_row(y, clone=True)\n            repeated = row.repeated or 1\n            if repeated >= 2:\n                row.repeated = None\n            row.set_cells(row_cells, start=x, clone=clone)",
+         "            row = self.get_row(y, clone=True)\n            row.set_cells(row_cells, start=x, clone=clone)", "R01a"),
+    Seed("set_cell un-repeats only above 2", "fault", _T,
+         "            repeated = row.repeated or 1\n            if repeated > 1:\n                row = row.clone\n                row.repeated = None\n                cell_back = row.set_cell(x, cell, clone=clone)",
+         "            repeated = row.repeated or 1\n            if repeated > 2:\n                row = row.clone\n                row.repeated = None\n                cell_back = row.set_cell(x, cell, clone=clone)", "R01a"),
+    Seed("set_values loses the push-back", "fault", _T,
+         "                style=style,\n            )\n            self.set_row(y, row, clone=False)\n            self._update_width(row)",
+         "                style=style,\n            )\n            self._update_width(row)", "R01a"),
+    Seed("delete_cell edits the stored row directly again", "fault", _T,
+         "        repeated = row.repeated or 1\n        if repeated > 1:\n            # edit a single copy of the repeated row\n            row = row.clone\n            row.repeated = None\n            row.y = y\n            row.delete_cell(x)\n            self.set_row(y, row, clone=False)\n        else:\n            row.delete_cell(x)",
+         "        row.delete_cell(x)", "R01a"),
+    Seed("new method clears a stored row in place", "fault", _T,
+         "    def delete_cell(self, coord: tuple | list | str) -> None:",
+         "    def clear_row(self, y: int) -> None:\n        row = self._get_row2_base(y)\n        if row is not None:\n            row.rstrip(aggressive=True)\n            self._compute_table_cache()\n            self._indexes[\"_tmap\"] = {}\n\n    def delete_cell(self, coord: tuple | list | str) -> None:", "R01a"),
+    Seed("vault: item looked up by child index", "fault", _EC,
+         "delete_item = vault._get_element_idx2(vault_scheme, next_odf_idx)", "delete_item = vault._get_element_idx2(vault_scheme, target_idx + 1)", "R01b"),
+    Seed("vault: insert at the item index", "fault", _EC,
+         "    vault.insert(new_item, position=target_idx)\n    # Insert the remaining repetitions", "    vault.insert(new_item, position=odf_idx)\n    # Insert the remaining repetitions", "R01b"),
+    Seed("vault: map patched at the child index", "fault", _EC,
+         "        emap = insert_map_once(emap, idx, repeated_before)\n        idx += 1", "        emap = insert_map_once(emap, target_idx, repeated_before)\n        idx += 1", "R01b"),
+    Seed("vault: find_odf_idx on a count", "fault", _EC,
+         "    odf_idx = find_odf_idx(vault_map, position)\n    if odf_idx is None:\n        raise ValueError\n    current_cache = vault_map[odf_idx]\n    cache = vault._indexes[vault_map_name]\n    if odf_idx in cache:\n        current_item = cache[odf_idx]\n    else:\n        current_item = vault._get_element_idx2(vault_scheme, odf_idx)\n    vault._indexes[vault_map_name] = {}\n    if odf_idx > 0:\n        before_cache = vault_map[odf_idx - 1]\n    else:\n        before_cache = -1\n    # current_pos",
+         "    odf_idx = find_odf_idx(vault_map, position)\n    if odf_idx is None:\n        raise ValueError\n    current_cache = vault_map[odf_idx]\n    cache = vault._indexes[vault_map_name]\n    if odf_idx in cache:\n        current_item = cache[odf_idx]\n    else:\n        current_item = vault._get_element_idx2(vault_scheme, position)\n    vault._indexes[vault_map_name] = {}\n    if odf_idx > 0:\n        before_cache = vault_map[odf_idx - 1]\n    else:\n        before_cache = -1\n    # current_pos", "R01b"),
+    Seed("delete_column guard compares with the table width", "fault", _T,
+         "        for row in self._get_rows():\n            if row.width > x:\n                row.delete_cell(x)", "        width = self.width\n        for row in self._get_rows():\n            if row.width >= width:\n                row.delete_cell(x)", "R01c"),
+    Seed("insert_column shifts every row", "fault", _T,
+         "            if row.width > x:\n                row.insert_cell(x, Cell(repeated=repeated))", "            if row.width >= x:\n                row.insert_cell(x, Cell(repeated=repeated))", "R01c"),
+    Seed("overlap loop deletes a run with one repetition left", "fault", _EC, "            if is_repeated >= 1:", "            if is_repeated > 1:", "R01d"),
+    Seed("delete keeps only runs above one", "fault", _EC, "    if new_repeated >= 1:", "    if new_repeated > 1:", "R01d"),
+    Seed("set: remainder off by one", "fault", _EC,
+         "    repeated_after = current_repeated - repeated_before - repeated\n", "    repeated_after = current_repeated - repeated_before - repeated - 1\n", "R01e"),
+    Seed("insert: before count off by one", "fault", _EC,
+         "    repeated_before = position - current_pos\n    repeated_after = current_repeated - repeated_before\n    new_item = item.clone",
+         "    repeated_before = position - current_pos + 1\n    repeated_after = current_repeated - repeated_before\n    new_item = item.clone", "R01e"),
+    Seed("insert: after item gets the before count", "fault", _EC,
+         "        after_item._set_repeated(repeated_after)\n        vault.insert(after_item, position=target_idx + 2)",
+         "        after_item._set_repeated(repeated_before)\n        vault.insert(after_item, position=target_idx + 2)", "R01e"),
+    Seed("set: run length measured from the wrong neighbour", "fault", _EC,
+         "    current_pos = before_cache + 1\n    current_repeated = current_cache - before_cache\n    repeated_before = position - current_pos\n    repeated_after = current_repeated - repeated_before - repeated",
+         "    current_pos = before_cache + 1\n    current_repeated = current_cache - before_cache + 1\n    repeated_before = position - current_pos\n    repeated_after = current_repeated - repeated_before - repeated", "R01e"),
+    Seed("delete: map not shifted", "fault", _EC,
+         "            vault_map[:odf_idx] + [(x - 1) for x in vault_map[odf_idx + 1 :]],", "            vault_map[:odf_idx] + [x for x in vault_map[odf_idx + 1 :]],", "R01e"),
+    unparse_seed(_T), unparse_seed(_R), unparse_seed(_EC),
+    Seed("un-repeat written with inverted test", "neutral", _T,
+         "            repeated = row.repeated or 1\n            if repeated >= 2:\n                row.repeated = None\n            row.set_cells(row_cells, start=x, clone=clone)",
+         "            repeated = row.repeated or 1\n            if repeated < 2:\n                pass\n            else:\n                row.repeated = None\n            row.set_cells(row_cells, start=x, clone=clone)"),
+    Seed("un-repeat unconditionally", "neutral", _T,
+         "            repeated = row.repeated or 1\n            if repeated >= 2:\n                row.repeated = None\n            row.set_cells(row_cells, start=x, clone=clone)",
+         "            row.repeated = None\n            row.set_cells(row_cells, start=x, clone=clone)"),
+    Seed("push-back extracted into a private helper", "neutral", _T,
+         "            row.set_cells(row_cells, start=x, clone=clone)\n            self.set_row(y, row, clone=False)\n            self._update_width(row)\n\n    def set_value(",
+         "            row.set_cells(row_cells, start=x, clone=clone)\n            self._push_row(y, row)\n\n    def _push_row(self, y: int, row: Row) -> None:\n        self.set_row(y, row, clone=False)\n        self._update_width(row)\n\n    def set_value("),
+]
